@@ -1,6 +1,7 @@
 package c02
 
 import (
+	"bytes"
 	"encoding/csv"
 	"fmt"
 	"os"
@@ -29,6 +30,8 @@ func caseDir(tag string) string {
 	return d
 }
 
+func addSeq() int64 { return atomic.AddInt64(&caseSeq, 1) }
+
 func clip(s string) string {
 	if len(s) > 400 {
 		return s[:400] + "…"
@@ -39,7 +42,7 @@ func clip(s string) string {
 // ---------------------------------------------------------------------
 // A. roundtrip_inproc: EncodeView -> bytes -> the real loader under the same settings
 
-func genRoundTrip(t *rapid.T) rtCase { return genTable(t, false) }
+func genRoundTrip(t *rapid.T) rtCase { return genTableOpts(t, false, true, false) }
 
 // loadInproc loads file (in dir) through a fresh csvq session under the case's settings.
 func loadInproc(c rtCase, dir string) (run.Tbl, error, error) {
@@ -124,6 +127,9 @@ func checkRoundTrip(c rtCase) (fw.Outcome, *fw.Violation) {
 		return o, fw.Harness("%v", herr)
 	}
 	sp, why := c.spellable()
+	if pe, ok := encErr.(*encodePanic); ok {
+		return o, fw.V(c.sig("encode_panic"), "%s: EncodeView panics: %s", c.dialectString(), pe.msg)
+	}
 	if encErr != nil {
 		// refused: nothing may have been written
 		if len(out) > 0 {
@@ -176,7 +182,7 @@ const rtRule = "table (1-4 columns, 0-6 rows; cells and 45% of the header names 
 
 func TestC02RoundTripInproc(t *testing.T) {
 	fw.Run(t, fw.Spec[rtCase]{
-		ID: "C02", Name: "roundtrip_inproc", Quick: 24000, Thorough: 480000,
+		ID: "C02", Name: "roundtrip_inproc", Quick: 14000, Thorough: 280000,
 		Gen: genRoundTrip, Check: checkRoundTrip,
 		Rule: rtRule + "; oracle: query.EncodeView either refuses (error, zero bytes written; a table spellable by the harness's own per-format predicate must not be refused) or the bytes, terminated as the manual describes and stored as a file, load back through SELECT * (import flags or the CSV()/FIXED()/LTSV()/JSON()/JSONL() table objects, same settings) with the same record count, field count, header and cell texts (NULL = \"\" where the format has one spelling, FIXED modulo edge blanks)",
 		Assumptions: []string{
@@ -192,19 +198,24 @@ func TestC02RoundTripInproc(t *testing.T) {
 // ---------------------------------------------------------------------
 // B. independent_readers: the same bytes read by readers that share no code with csvq
 
-func wantText(c rtCase, x cell) string { return x.S }
-
 // verifyBytes reads csvq's output with the harness readers (and encoding/csv,
 // encoding/json). final: the bytes include csvq's own ending line break
 // (CLI paths); otherwise they are EncodeView's raw output.
 func verifyBytes(c rtCase, raw []byte, final bool) *fw.Violation {
 	d := c.dialectString()
 	lb := lbValue(c.LB)
+	if final && isUTF16(c.Enc) && !c.Strip && bytes.HasSuffix(raw, []byte(lb)) {
+		// would the output be fine had the ending line break been written in the encoding?
+		proper, _ := encodeText(lb, bomless(c.Enc))
+		if !bytes.HasSuffix(raw, proper) || len(raw)%2 == 1 {
+			repaired := append(append([]byte{}, raw[:len(raw)-len(lb)]...), proper...)
+			if verifyBytes(c, repaired, true) == nil {
+				return fw.V("trailing_linebreak_not_encoded", "%s: the ending line break is written as the raw byte(s) % X instead of %s text; last bytes % X", d, []byte(lb), c.Enc, raw[max(0, len(raw)-8):])
+			}
+		}
+	}
 	text, err := decodeText(raw, c.Enc)
 	if err != nil {
-		if final && isUTF16(c.Enc) && len(raw)%2 == 1 && !c.Strip {
-			return fw.V("trailing_linebreak_not_encoded", "%s: the output is not valid %s: %v; last bytes % X", d, c.Enc, err, raw[max(0, len(raw)-6):])
-		}
 		return fw.V(c.sig("independent_decode"), "%s: the output does not decode as %s: %v; first bytes % X", d, c.Enc, err, raw[:min(len(raw), 24)])
 	}
 	rows := c.allRows()
@@ -439,6 +450,9 @@ func checkIndependent(c rtCase) (fw.Outcome, *fw.Violation) {
 	if herr != nil {
 		return o, fw.Harness("%v", herr)
 	}
+	if _, ok := encErr.(*encodePanic); ok {
+		return o, fw.V(c.sig("encode_panic"), "%s: EncodeView panics: %v", c.dialectString(), encErr)
+	}
 	if encErr != nil || len(out) == 0 {
 		// refusals are judged by roundtrip_inproc
 		o.Fingerprint = ""
@@ -459,7 +473,7 @@ func checkIndependent(c rtCase) (fw.Outcome, *fw.Violation) {
 
 func TestC02IndependentReaders(t *testing.T) {
 	fw.Run(t, fw.Spec[rtCase]{
-		ID: "C02", Name: "independent_readers", Quick: 24000, Thorough: 480000,
+		ID: "C02", Name: "independent_readers", Quick: 14000, Thorough: 280000,
 		Gen: genRoundTrip, Check: checkIndependent,
 		Rule: rtRule + "; oracle: the bytes of query.EncodeView are decoded by the harness's own strict decoder (byte order mark exactly as the encoding name says) and read by readers that share no code with csvq: an RFC 4180 state machine plus Go's encoding/csv (CSV/TSV), encoding/json with member order and duplicate detection (JSON/JSONL), a label:value splitter (LTSV) and a byte-column cutter over the harness's own width model (FIXED): same shape, same texts, every record line break is the configured one, enclose-all encloses every text",
 		Assumptions: []string{"cases csvq refuses, and accepted cases the harness's predicate calls unspellable, are left to roundtrip_inproc",
